@@ -247,6 +247,10 @@ func (c *conn) start(l cout.Log, h connServer, x net.Conn, a string) {
 		h.clientSet(i, c.host.sender())
 	}
 	h.clientUnlock()
+	// KeyCrypt: The exchange that started the Channel may have carried a key
+	//           swap, the reply was written with the old copy, from here on use
+	//           the Session's current keys.
+	c.keys = c.host.keyValue()
 	c.host.stateSet(stateChannel)
 	c.host.chanWakeClear()
 	go c.channelRead(l, h, a, x)
